@@ -40,6 +40,10 @@ func grammarInit() {
 	}
 	c0, _ := cid.NewPrefixV0(0x12).Sum([]byte("link-v0"))
 	linkPool = append(linkPool, c0) // index 3: a CIDv0 (dag-pb)
+	for i := 4; i < 14; i++ {       // indices 4..13: ten more, for entries with many predecessors
+		c, _ := cid.NewPrefixV1(cid.DagCBOR, 0x12).Sum([]byte(fmt.Sprintf("link%d", i)))
+		linkPool = append(linkPool, c)
+	}
 }
 
 func linksOf(ix []int) []cid.Cid {
@@ -145,6 +149,16 @@ func grammar(tier string) []entrySpec {
 					g = append(g, entrySpec{Payload: p, Time: t, Writer: w, LogID: "X", Next: sh[0], Refs: sh[1]})
 				}
 			}
+		}
+	}
+	// many predecessors (a log with many concurrent heads) with and without references: 5, 6, 8 and 9 distinct links
+	for _, k := range []int{5, 6, 8, 9} {
+		var n []int
+		for i := 0; i < k; i++ {
+			n = append(n, 4+i)
+		}
+		for _, r := range [][]int{{}, {0}, {0, 1}, {0, 1, 3, 13}} {
+			g = append(g, entrySpec{Payload: []byte("hello"), Time: 7, Writer: 1, LogID: "X", Next: n, Refs: r})
 		}
 	}
 	for _, id := range []string{"A", "longer-log-id/with/slashes", "日本"} {
